@@ -883,3 +883,89 @@ Proof.
   - eapply Forall_impl; [|exact Hpost]. simpl. intros t ->. reflexivity.
   - eapply Forall_impl; [|exact Hpre]. simpl. intros t ->. reflexivity.
 Qed.
+
+(* ------------------------------------------------------------------ *)
+(* the prepared ledger is again sorted by date (so that modelling bisect_left by the
+   linear scan is sound from one stage to the next) *)
+
+Lemma sorted_same_date c l : Forall (fun t => t_date t = c) l -> sorted_dates l.
+Proof.
+  induction 1 as [|a r Ha Hr IH]; [constructor|]. constructor; [exact IH|].
+  eapply Forall_impl; [|exact Hr]. unfold date_le. simpl. intros x Hx. apply Z.leb_le. lia.
+Qed.
+
+Lemma sorted_take d l : sorted_dates l -> sorted_dates (take_before d l).
+Proof. intro H. rewrite take_before_filter by exact H. apply sorted_dates_filter. exact H. Qed.
+Lemma sorted_drop d l : sorted_dates l -> sorted_dates (drop_before d l).
+Proof. intro H. rewrite drop_before_filter by exact H. apply sorted_dates_filter. exact H. Qed.
+
+Lemma last_date_cons a r : last_date (a :: r) = match r with [] => t_date a | _ => last_date r end.
+Proof.
+  unfold last_date. simpl. destruct r as [|b r']; [reflexivity|].
+  destruct (rev (b :: r')) as [|x xs] eqn:E.
+  - apply (f_equal (@length txn)) in E. rewrite rev_length in E. discriminate.
+  - reflexivity.
+Qed.
+
+Lemma last_date_max l : sorted_dates l -> Forall (fun t => t_date t <= last_date l) l.
+Proof.
+  induction 1 as [|a r Hs IH Ha]; [constructor|]. rewrite last_date_cons. destruct r as [|b r'].
+  - repeat constructor. lia.
+  - constructor.
+    + inversion IH as [|? ? Hb _]; subst. inversion Ha as [|? ? Hab _]; subst.
+      unfold date_le in Hab. apply Z.leb_le in Hab. lia.
+    + exact IH.
+Qed.
+
+Lemma sorted_snoc_block c x T : sorted_dates x -> Forall (fun t => t_date t <= c) x ->
+  Forall (fun t => t_date t = c) T -> sorted_dates (x ++ T).
+Proof.
+  intros Hx Hle HT. apply sorted_app; [exact Hx | eapply sorted_same_date; exact HT |].
+  intros a b Ha Hb. rewrite Forall_forall in Hle, HT. unfold date_le. apply Z.leb_le.
+  rewrite (HT b Hb). apply Hle. exact Ha.
+Qed.
+
+Lemma shape_date flag c l : Forall (fun t => t_flag t = flag /\ t_date t = c) l -> Forall (fun t => t_date t = c) l.
+Proof. apply Forall_impl. intros t [_ H]; exact H. Qed.
+
+Theorem prepared_sorted o op cl clr l : sorted_dates l -> check_dates op cl = FromOk ->
+  sorted_dates (prepare_c o op cl clr l).
+Proof.
+  intros Hs Hc. rewrite prepare_decomp by exact Hc.
+  (* open part ++ window *)
+  assert (H1 : sorted_dates (part_open o op l ++ part_window op cl l)).
+  { unfold part_open, part_window. apply sorted_app.
+    - destruct op; [|constructor]. eapply sorted_same_date, shape_date, open_summary_shape.
+    - unfold take_hi, drop_lo. destruct (close_date cl), op; try apply sorted_take; try apply sorted_drop; exact Hs.
+    - intros a b Ha Hb. destruct op as [d|]; [|destruct Ha].
+      pose proof (open_summary_shape o d (take_before d l)) as Hsh. rewrite Forall_forall in Hsh.
+      destruct (Hsh a Ha) as [_ Hda].
+      assert (In b (drop_before d l)) as Hb'.
+      { unfold take_hi, drop_lo in Hb. destruct (close_date cl); [|exact Hb].
+        rewrite take_before_filter in Hb by (apply sorted_drop; exact Hs). apply filter_In in Hb. apply Hb. }
+      rewrite drop_before_filter in Hb' by exact Hs. apply filter_In in Hb'. destruct Hb' as [_ Hdb].
+      apply Z.leb_le in Hdb. unfold date_le. apply Z.leb_le. lia. }
+  (* ++ close part *)
+  assert (H2 : sorted_dates (part_open o op l ++ part_window op cl l ++ part_close o op cl l)).
+  { rewrite app_assoc. unfold part_close. destruct cl as [[e|]|]; cbv zeta.
+    - eapply sorted_snoc_block; [exact H1 | | eapply shape_date, conv_entries_shape].
+      apply Forall_app; split.
+      + unfold part_open. destruct op as [d|]; [|constructor].
+        simpl in Hc. destruct (Z.ltb_spec e d); [discriminate|].
+        eapply Forall_impl; [|apply open_summary_shape]. intros t [_ Ht]. simpl in Ht. lia.
+      + unfold part_window. simpl. eapply Forall_impl; [|apply take_before_lt]. simpl. intros; lia.
+    - eapply sorted_snoc_block; [exact H1 | apply last_date_max; exact H1 | eapply shape_date, conv_entries_shape].
+    - rewrite app_nil_r. exact H1. }
+  rewrite !app_assoc. rewrite <- app_assoc, <- app_assoc, !app_assoc.
+  unfold part_clear. destruct clr; cbv zeta.
+  - rewrite <- !app_assoc in *.
+    replace (part_open o op l ++ part_window op cl l ++ part_close o op cl l ++
+             transfer_entries (part_open o op l ++ part_window op cl l ++ part_close o op cl l) (o_earn_cur o)
+               (last_date (part_open o op l ++ part_window op cl l ++ part_close o op cl l)))
+      with ((part_open o op l ++ part_window op cl l ++ part_close o op cl l) ++
+             transfer_entries (part_open o op l ++ part_window op cl l ++ part_close o op cl l) (o_earn_cur o)
+               (last_date (part_open o op l ++ part_window op cl l ++ part_close o op cl l)))
+      by (rewrite <- !app_assoc; reflexivity).
+    eapply sorted_snoc_block; [exact H2 | apply last_date_max; exact H2 | eapply shape_date, transfer_entries_shape].
+  - rewrite app_nil_r. rewrite <- !app_assoc. exact H2.
+Qed.
